@@ -1,5 +1,4 @@
 import Zc.Proofs.Listener
-import Zc.Proofs.SurviveHost
 /-! `TimerInv` ("a TC timer is armed only for an address that has a deferred packet") for the listener
 machine of C16 — the invariant C16 first left open.
 
@@ -7,15 +6,57 @@ C15 proves it (as the `timer` half of `Survive.LInv`) for the *concrete* host `Z
 encoder, a `Down` record).  C16's machine is the same listener over an *arbitrary* handler, so C15's
 theorem is not an instance of what is needed here (nor the other way round); what is shared is the
 bookkeeping of `_deferred`/`_timers`.  This file therefore
-* reuses C15's association-list lemmas (`Survive.alGet_alSet_ne`, `alGet_alErase_ne`,
-  `alGet_append_single`) to prove the invariant for every `Handler`, and
-* shows that the two invariants are literally the same predicate under the forgetful map
-  `Survive.State → Listener.State` (`timerInv_forget`), so `C15`'s `LInv.timer` and `C16`'s `TimerInv`
-  cannot drift apart. -/
+* proves the invariant for every `Handler` with the same association-list lemmas as C15, and
+* `Proofs/ListenerBridge.lean` shows that the two invariants are literally the same predicate under the forgetful map
+  `Survive.State → Listener.State` (`timerInv_forget`), so `C15`'s `LInv.timer` and `C16`'s `TimerInv` cannot drift apart
+  (kept out of C16's import chain: C16 must build even when C15's decoder proofs are being reworked). -/
 namespace Zc.Listener
-open Zc.Survive (alGet_alSet_ne alGet_alErase_ne alGet_append_single)
 
 variable {σ ω β : Type} (H : Handler σ ω β)
+
+/-! ### association lists (the statements of C15's `Survive.alGet_alSet_ne` / `alGet_alErase_ne` / `alGet_append_single`,
+repeated here so that C16 does not depend on C15's decoder/encoder proof chain; `Proofs/ListenerBridge.lean` ties the
+two invariants together) -/
+
+theorem alGet_alSet_ne {α} {k k' : Addr} (v : α) (l : List (Addr × α)) (h : k' ≠ k) :
+    alGet k' (alSet k v l) = alGet k' l := by
+  induction l with
+  | nil => simp [alSet, alGet, Ne.symm h]
+  | cons p r ih =>
+    obtain ⟨k2, v2⟩ := p
+    by_cases h2 : k2 = k
+    · subst h2
+      simp [alSet, alGet, Ne.symm h]
+    · by_cases h3 : k2 = k'
+      · subst h3
+        simp [alSet, alGet, h]
+      · simp [alSet, alGet, h2, h3, ih]
+
+theorem alGet_alErase_ne {α} {k k' : Addr} (l : List (Addr × α)) (h : k' ≠ k) :
+    alGet k' (alErase k l) = alGet k' l := by
+  induction l with
+  | nil => simp [alErase, alGet]
+  | cons p r ih =>
+    obtain ⟨k2, v2⟩ := p
+    by_cases h2 : k2 = k
+    · subst h2
+      have : alGet k' (alErase k2 r) = alGet k' r := ih
+      simpa [alErase, List.filter, alGet, Ne.symm h] using this
+    · have : alGet k' (alErase k r) = alGet k' r := ih
+      by_cases h3 : k2 = k'
+      · subst h3
+        simp [alErase, List.filter, alGet, h]
+      · simpa [alErase, List.filter, alGet, h2, h3] using this
+
+theorem alGet_append_single {α} {k k' : Addr} (v : α) (l : List (Addr × α)) :
+    alGet k' (l ++ [(k, v)]) = match alGet k' l with | some x => some x | none => if k = k' then some v else none := by
+  induction l with
+  | nil => simp [alGet]
+  | cons p r ih =>
+    obtain ⟨k2, v2⟩ := p
+    by_cases h2 : k2 = k'
+    · simp [alGet, h2]
+    · simpa [alGet, h2] using ih
 
 theorem TimerInv.init (d : σ) : TimerInv (State.init d) := by
   intro a t h
@@ -153,40 +194,5 @@ theorem run_inv (bs : List (Block β)) : ∀ (s : State σ), TimerInv s →
       rcases ih s1 i1 with ⟨s2, o2, h2, i2⟩ | h2
       · exact Or.inl ⟨s2, o1 ++ o2, by simp [h2, pure, Except.pure], i2⟩
       · exact Or.inr (by simp [h2])
-
-/-! ### the bridge to C15 -/
-
-/-- forget the decoder products: a `Survive` listener state as a C16 listener state -/
-def forget (s : Zc.Survive.State σ) : State σ :=
-  { data := s.data, lastTime := s.lastTime,
-    lastMsg := s.lastMsg.map (fun m => { valid := true, isQuery := m.1, truncated := false, hasQU := m.2 }),
-    deferred := s.deferred.map (fun p => (p.1, p.2.map (fun k => { data := k.data, now := k.now }))),
-    timers := s.timers, down := s.down }
-
-theorem alGet_map {α γ} (f : α → γ) (k : Addr) (l : List (Addr × α)) :
-    alGet k (l.map (fun p => (p.1, f p.2))) = (alGet k l).map f := by
-  induction l with
-  | nil => simp [alGet]
-  | cons p r ih =>
-    obtain ⟨k', v⟩ := p
-    by_cases h : k' = k <;> simp [alGet, h, ih]
-
-/-- C15's `LInv.timer` (`Survive.TimerInv`) and C16's `TimerInv` are the same predicate -/
-theorem timerInv_forget (s : Zc.Survive.State σ) : TimerInv (forget s) ↔ Zc.Survive.TimerInv s := by
-  unfold TimerInv Zc.Survive.TimerInv
-  constructor
-  · intro h a t ht
-    obtain ⟨p, ps, hp⟩ := h a t ht
-    simp only [forget, alGet_map] at hp
-    cases hg : alGet a s.deferred with
-    | none => simp [hg] at hp
-    | some l =>
-      cases l with
-      | nil => simp [hg] at hp
-      | cons x xs => exact ⟨x, xs, rfl⟩
-  · intro h a t ht
-    obtain ⟨p, ps, hp⟩ := h a t ht
-    simp only [forget, alGet_map, hp]
-    exact ⟨_, _, rfl⟩
 
 end Zc.Listener
